@@ -237,12 +237,30 @@ def gen_case(rng, spawner='POPEN'):
             t.update({'cancel': 'at_target', 'cancel_at': None, 'timeout': 0.0})
             if t['ending'] == 'long' and target.startswith('check_'):
                 t.update({'ending': 'ok', 'dur': 0.05})
+    target_delay = rng.choice([0.02, 0.06, 0.15])
+    if target and target.startswith('cancel_') and rng.random() < 0.7:
+        # the cancel handler is delayed at the targeted line: make the
+        # process of one task exit (and be collected by the watcher) right
+        # inside that window, or let its run-time limit fire there too
+        cands = [t for t in tasks if not t['poison']]
+        if cands:
+            t   = rng.choice(cands)
+            dur = rng.choice([0.1, 0.2, 0.3])
+            t.update({'ending': rng.choice(['ok', 'exit']), 'dur': dur,
+                      'cancel': 'race_exit', 'timeout': 0.0,
+                      'cancel_at': max(0.0, dur + 0.04 - target_delay *
+                                            rng.choice([0.3, 0.5, 0.8]))})
+            t['code'] = 3 if t['ending'] == 'exit' else 0
+            t.pop('cancel_fault', None)
+            if rng.random() < 0.3:
+                # ... and its run-time limit expires in the same window
+                t['timeout'] = max(0.12, t['cancel_at'])
     return {'seed'   : rng.randint(0, 2 ** 30),
             'spawner': spawner,
             'tasks'  : tasks,
             'perturb': rng.choice([0.0, 0.02, 0.1]),
             'target' : target,
-            'target_delay': rng.choice([0.02, 0.06, 0.15]),
+            'target_delay': target_delay,
             'switch' : rng.choice([None, 1e-5, 1e-4])}
 
 
